@@ -54,24 +54,25 @@ type Scenario struct {
 }
 
 type ServerSide struct {
-	Delivered     bool   `json:"delivered"`
-	ParseErr      string `json:"parse_err,omitempty"`
-	Panic         string `json:"panic,omitempty"`
-	Status        int    `json:"status"`
-	WriteHeaders  int    `json:"write_headers"`
-	Commits       int    `json:"commits"`
-	Explicit      bool   `json:"explicit"`
-	BodyBytes     int    `json:"body_bytes"`
-	WritesAfter   int    `json:"writes_after_return"`
-	WriteErrs     int    `json:"write_errs"`
-	HandlerCalls  int    `json:"handler_calls"`
-	MiddlewareOps int    `json:"middleware_calls"`
-	ServerSaw     string `json:"server_saw,omitempty"`
-	MiddlewareSaw string `json:"middleware_saw,omitempty"`
-	SecurityCalls int    `json:"security_calls"`
-	Allow         string `json:"allow,omitempty"`
-	Returned      bool   `json:"returned"`
-	TempFiles     int    `json:"temp_files"`
+	Delivered      bool   `json:"delivered"`
+	ParseErr       string `json:"parse_err,omitempty"`
+	Panic          string `json:"panic,omitempty"`
+	Status         int    `json:"status"`
+	WriteHeaders   int    `json:"write_headers"`
+	Commits        int    `json:"commits"`
+	Explicit       bool   `json:"explicit"`
+	BodyBytes      int    `json:"body_bytes"`
+	WritesAfter    int    `json:"writes_after_return"`
+	WriteErrs      int    `json:"write_errs"`
+	HandlerCalls   int    `json:"handler_calls"`
+	MiddlewareOps  int    `json:"middleware_calls"`
+	ServerSaw      string `json:"server_saw,omitempty"`
+	MiddlewareSaw  string `json:"middleware_saw,omitempty"`
+	Middleware2Saw string `json:"middleware2_saw,omitempty"`
+	SecurityCalls  int    `json:"security_calls"`
+	Allow          string `json:"allow,omitempty"`
+	Returned       bool   `json:"returned"`
+	TempFiles      int    `json:"temp_files"`
 }
 
 type CallRecord struct {
@@ -715,6 +716,9 @@ func oracleC19(alone, conc *CallRecord) []problem {
 		if a.MiddlewareSaw != c.MiddlewareSaw {
 			add("outcome equals the outcome when run alone: what the middleware saw", firstDiff(a.MiddlewareSaw, c.MiddlewareSaw))
 		}
+		if a.Middleware2Saw != c.Middleware2Saw {
+			add("outcome equals the outcome when run alone: what the second middleware of the chain saw", fmt.Sprintf("%q, alone %q", c.Middleware2Saw, a.Middleware2Saw))
+		}
 	}
 	return out
 }
@@ -787,7 +791,7 @@ func Run(id string) core.CheckFunc {
 		sp := specs[id]
 		// C15 and C19 also drive servers regenerated from the repository's corpus (quick: a spread of 6, thorough: all)
 		corpus := 0
-		if id == "C15" || id == "C19" {
+		if id == "C15" || id == "C19" || id == "C01" {
 			corpus = 6
 			if c.Tier == "thorough" {
 				corpus = -1
@@ -821,18 +825,29 @@ func Run(id string) core.CheckFunc {
 		if err != nil || corpus == 0 {
 			return out, err
 		}
-		vs, info, err := e.checkCorpus(c, id)
-		if err != nil {
-			return nil, err
+		parts := map[string]func(*core.Ctx, string) ([]core.Violation, map[string]any, error){"typed_corpus_exchange": e.checkTyped}
+		if id != "C01" {
+			parts["corpus_driver"] = e.checkCorpus
 		}
-		out.Violations = append(out.Violations, vs...)
-		out.Evidence.Coverage["corpus_driver"] = info
-		if n, ok := info["runs"].(int); ok {
-			out.Evidence.Coverage["evaluations"] = out.Evidence.Coverage["evaluations"].(int) + n
+		for _, name := range []string{"corpus_driver", "typed_corpus_exchange"} {
+			part := parts[name]
+			if part == nil {
+				continue
+			}
+			vs, info, err := part(c, id)
+			if err != nil {
+				return nil, err
+			}
+			out.Violations = append(out.Violations, vs...)
+			out.Evidence.Coverage[name] = info
+			if n, ok := info["runs"].(int); ok {
+				out.Evidence.Coverage["evaluations"] = out.Evidence.Coverage["evaluations"].(int) + n
+			}
+			if n, ok := info["distinct_schedules"].(int); ok {
+				out.Evidence.Coverage["distinct_nontrivial"] = out.Evidence.Coverage["distinct_nontrivial"].(int) + n
+			}
 		}
-		if n, ok := info["distinct_schedules"].(int); ok {
-			out.Evidence.Coverage["distinct_nontrivial"] = out.Evidence.Coverage["distinct_nontrivial"].(int) + n
-		}
+		out.Evidence.Coverage["corpus_skipped"] = e.CorpusSkipped
 		return out, nil
 	}
 }
